@@ -40,6 +40,16 @@ def gen_cases(spec, ctx):
             d = r.choice([[], {}, 0, False, "", "x", 7, 1.5, True, [[]], {"a": {}}])
             z = r.choice([[], {}, 1, True, "y", [2], {"a": [1, 2], "b": "c"}])
         c = {"d": d, "z": z, "ds": r.choice(gen.DS), "le": r.choice(gen.LE)}
+        if i % 12 == 9:
+            # a third document that differs only by python-equal scalars of another type (true <-> 1, false <-> 0, 2 <-> 2.0 stays
+            # out: plist and YAML keep ints and reals apart): equal for Python, different documents for every format
+            d = {"on": True, "off": False, "n": 1, "z": 0, "lst": [True, 1, 0, False, 7], "k": "s"}
+            z = {"on": 1 if r.random() < 0.7 else True, "off": 0 if r.random() < 0.7 else False, "n": True if r.random() < 0.5 else 1,
+                 "z": False if r.random() < 0.5 else 0, "lst": [1, True, False, 0, 7] if r.random() < 0.7 else [True, 1, 0, False, 7],
+                 "k": "s"}
+            if z == d and all(type(z[k_]) is type(d[k_]) for k_ in d if k_ != "lst") and [type(x) for x in z["lst"]] == [type(x) for x in d["lst"]]:
+                z["on"] = 1
+            c.update(d=d, z=z)
         if i % 12 in (7, 11):
             # the same non-empty list / mapping under two keys (YAML writes the second as an alias of the first), a third document
             # that changes the repeated part, and the list options in force
